@@ -57,6 +57,32 @@ def job(j):
             genrun.add_viol(st["viol"], ({"kind": "var-pair", "offending": sorted(rec["offending"]), "first": mm[0][:100]},
                                {"cell": rec, "query": q, "variables": repr(variables), "mismatches": mm, "response": repr(resp)[:1500]}))
 
+    def default_cell(w, rec):
+        """the candidate value spelled as the DEFAULT of a variable that is not provided: an invalid used default refuses the
+        request, a valid one is coerced like the provided value (R1_Ways: ArgsVarDefault.refused <=> VarRes.refused)"""
+        if rec["v"]["t"] == "N":
+            return
+        ty = render.typeref(rec["type"])
+        for k in (0, 1):
+            st["n"] += 1
+            vdef = "$a: %s = %s" % (ty, lit_text(rec["lit"], k))
+            q = "query (%s) { e%d(a: $a) }" % (vdef, rec["ti"])
+            variables = {"zz": 7}
+            resp = w.run(q, variables)
+            if rec["refused"]:
+                mm = refused_ok(resp, w)
+            else:
+                exp = expected_args(rec["argsVar"], k)
+                mm = []
+                if not isinstance(resp, dict) or resp.get("errors") or "__raised__" in resp:
+                    mm.append("valid default refused / errors: %r" % (resp,))
+                elif len(w.calls) != 1 or not render.strict_eq(w.calls[0][2], exp):
+                    mm.append("resolver saw %r, expected %r" % (w.calls, exp))
+            st["distinct"].add((rec["ti"], "default", repr(rec["v"])))
+            if mm and len(st["viol"]) < 400:
+                genrun.add_viol(st["viol"], ({"kind": "default-cell", "type": ty, "refused_expected": rec["refused"], "first": mm[0][:100]},
+                                   {"cell": rec, "query": q, "variables": repr(variables), "mismatches": mm, "response": repr(resp)[:1500]}))
+
     def on_line(rec):
         if rec["kind"] == "itypes":
             st["w"] = inputworld.InputWorld(rec)
@@ -64,6 +90,8 @@ def job(j):
         w = st["w"]
         if rec["kind"] == "paircell":
             return pair_cell(w, rec)
+        if rec["kind"] == "waycell":
+            return default_cell(w, rec)
         ty = render.typeref(rec["type"])
         for k in (0, 1):
             st["n"] += 1
@@ -101,9 +129,10 @@ def main(argv):
     rep = common.Report("C04")
     rep.rule = ("cases = (declared variable type among 66: 8 wrapper shapes x {Int, Float, String, Boolean, ID, enum, 2 input objects incl. recursive/defaulted/required "
                 "fields} + two depth-3 nestings) x default? x (absent | candidate JSON value one mutation away from well-typed at every position) x 2 representatives; "
-                "distinct_nontrivial = distinct (type, default?, present?, value) cells")
+                "+ every candidate value spelled as the default of a variable that is not provided; distinct_nontrivial = distinct (type, default?, present?, value) cells")
     rep.assumptions = ["stand-in parser", "leaf values are token representatives (harness/tokens.py); scalar leaf laws themselves are C10's", "an undeclared variable zz is always sent along"]
-    results = genrun.run_jobs("checks.c04", "job", [{"cfg": "MC_vars_%d.cfg" % p} for p in range(PARTS)] + [{"cfg": "MC_pairs.cfg"}, {"cfg": "MC_pairs2.cfg"}])
+    results = genrun.run_jobs("checks.c04", "job", [{"cfg": "MC_vars_%d.cfg" % p} for p in range(PARTS)] + [{"cfg": "MC_pairs.cfg"}, {"cfg": "MC_pairs2.cfg"}]
+                              + [{"cfg": "MC_ways_%d.cfg" % p} for p in range(PARTS)])
     bad = genrun.merge(rep, results)
     rc = rep.finish()
     if bad:
